@@ -1,8 +1,10 @@
 #!/usr/bin/env python3
-"""tools/try_seed.py <Cxx> <out-dir-of-the-seeding-agent> [name]
+"""tools/try_seed.py <Cxx> <out-dir-of-the-seeding-agent> [name] [harmless]
 Confirms a seeded change (patch.diff + demo) in a fresh scratch worktree of /repo — the suite still passes with it,
 the demonstration fails with it and passes without it — then runs ./check Cxx against that worktree (VERIF_REPO) and
-records everything under /verif/seeded/<name>/ (patch.diff, demo, meta.json).  The worktree is removed afterwards."""
+records everything under /verif/seeded/<name>/ (patch.diff, demo, meta.json).  The worktree is removed afterwards.
+With a fourth argument `harmless` the change is a behaviour-preserving rewrite: its differential demo must pass with and
+without it, and a VIOLATION line from the check is then an alarm on code where the property holds (meta: "alarm")."""
 import json
 import os
 import shutil
@@ -55,6 +57,7 @@ def run_demo(wt, demo):
 def main():
     prop, outdir = sys.argv[1], sys.argv[2]
     name = sys.argv[3] if len(sys.argv) > 3 else prop
+    harmless = len(sys.argv) > 4 and sys.argv[4] == "harmless"
     patch = os.path.join(outdir, "patch.diff")
     demo = next((os.path.join(outdir, f) for f in ("demo.py", "test_demo.py") if os.path.exists(os.path.join(outdir, f))), None)
     notes = {}
@@ -87,7 +90,9 @@ def main():
             os.remove(demo_in_wt)
         suite_ok, summ, failed = suite(wt)
         meta["ran"].append({"what": "repository test-suite with the change", "ok": suite_ok, "summary": summ, "failed": failed[:6]})
-        meta["confirmed"] = bool(suite_ok and ok_without and ok_with is False)
+        meta["confirmed"] = bool(suite_ok and ok_without and (ok_with is True if harmless else ok_with is False))
+        if harmless:
+            meta["kind"] = "harmless"
         t = time.time()
         env = dict(os.environ, VERIF_REPO=wt)
         rc, out = sh(f"./check {prop}", cwd=V, env=env, timeout=7200)
@@ -109,6 +114,9 @@ def main():
                 except Exception:  # noqa
                     pass
         meta["channels"] = sorted(chans)
+        if harmless:
+            meta["alarm"] = meta.pop("detected")
+            meta["alarm_has_concrete_input"] = any(c.startswith("concrete") for c in chans)
     finally:
         sh(f"git -C /repo worktree remove --force {wt}")
         shutil.rmtree(wt, ignore_errors=True)
@@ -124,7 +132,7 @@ def finish(meta, name, patch, demo):
     if demo:
         shutil.copy(demo, os.path.join(d, os.path.basename(demo)))
     json.dump(meta, open(os.path.join(d, "meta.json"), "w"), indent=1)
-    print(json.dumps({k: meta.get(k) for k in ("property", "confirmed", "detected", "channels")}), meta.get("check", {}).get("lines"))
+    print(json.dumps({k: meta.get(k) for k in ("property", "kind", "confirmed", "detected", "alarm", "channels") if k in meta}), meta.get("check", {}).get("lines"))
 
 
 if __name__ == "__main__":
